@@ -42,7 +42,8 @@ DurRound(D, largest, smallest, inc, mode) ==
        IN IF ~Le(Abs(r), MaxTimeNs) THEN ErrRange ELSE DurNew(BalanceDur(r, largest))
 \* total(unit) without a reference = exact total / unit length, as the exact rational [n, d]
 DurTotal(D, unit) ==
-  IF HasCalendarUnits(D) \/ unit \in CalendarUnits THEN ErrRange
+  IF unit = "auto" THEN ErrRange                        \* the unit is required; auto is a value of largestUnit only
+  ELSE IF HasCalendarUnits(D) \/ unit \in CalendarUnits THEN ErrRange
   ELSE Ok([n |-> DayTimeNs(D), d |-> UnitNsBig(unit)])
 
 \* a double m * 2^e (m an integer big, e an int) is an acceptable rendering of the exact rational n/d:
